@@ -233,7 +233,7 @@ func (e *enc) run(fr *frame, atEntry Term) {
 		for _, in := range b.Instrs {
 			e.instr(b, in)
 			if d, ok := in.(*ssa.DebugRef); ok {
-				if obj, ok := d.Object().(*types.Var); ok && obj != nil {
+				if obj, ok := d.Object().(*types.Var); ok && obj != nil && !isPkgLevel(obj) {
 					fr.curNames[obj.Name()] = d.X
 				}
 			}
@@ -375,6 +375,52 @@ func (e *enc) allocKey(fr *frame, a *ssa.Alloc) string {
 
 // callWrites: components a call may write
 func (e *enc) callWrites(fr *frame, c *ssa.CallCommon, keys map[string]bool, allHeap *bool) {
+	// a callee under contract writes exactly what its (verified) modifies clauses say
+	if cal := c.StaticCallee(); cal != nil && inRepo(cal) {
+		if ct, ok := e.ss.Contracts[cal.Pkg.Pkg.Path()+"."+funcKey(cal)]; ok && !ct.ModAll {
+			for _, m := range ct.Modifies {
+				switch n := m.E.(type) {
+				case *SIdent:
+					hit := false
+					for i, p := range cal.Params {
+						if p.Name() == n.Name && i < len(c.Args) {
+							e.addWriteBase(fr, c.Args[i], keys, allHeap)
+							if u, ok := c.Args[i].(*ssa.UnOp); ok {
+								e.addWriteBase(fr, u.X, keys, allHeap)
+							}
+							hit = true
+						}
+					}
+					if !hit {
+						if g, ok := cal.Pkg.Members[n.Name].(*ssa.Global); ok {
+							keys[e.ensureGlobal(g)] = true
+						}
+					}
+				case *SUnary:
+					if id, ok := n.X.(*SIdent); ok && n.Op == "*" {
+						for i, p := range cal.Params {
+							if p.Name() == id.Name && i < len(c.Args) {
+								e.addWriteBase(fr, c.Args[i], keys, allHeap)
+							}
+						}
+					}
+				case *SField:
+					if id, ok := n.X.(*SIdent); ok {
+						for _, imp := range cal.Pkg.Pkg.Imports() {
+							if imp.Name() == id.Name {
+								if sp := e.w.Prog.Package(imp); sp != nil {
+									if g, ok := sp.Members[n.Name].(*ssa.Global); ok {
+										keys[e.ensureGlobal(g)] = true
+									}
+								}
+							}
+						}
+					}
+				}
+			}
+			return
+		}
+	}
 	// pointer arguments with known locations may be written by the callee
 	for _, a := range c.Args {
 		if _, ok := a.Type().Underlying().(*types.Pointer); ok && !isNodeType(a.Type()) {
@@ -603,6 +649,24 @@ func (e *enc) loopLatch(fr *frame, latch, h *ssa.BasicBlock) {
 			}
 		}
 	}
+	// lemmas at the back edge: proved in order, each assumed for what follows
+	for i, as := range ls.spec.Asserts {
+		env := e.loopEnv(fr, h, vals, e.mem)
+		inner := env.locals
+		env.locals = func(name string) (tval, bool) {
+			if strings.HasSuffix(name, "@pre") {
+				return e.lookupLocalAtHeader(fr, h, ls, strings.TrimSuffix(name, "@pre"))
+			}
+			return inner(name)
+		}
+		g, err := e.specBool(env, as.E)
+		if err != nil {
+			e.contractError(fr, fmt.Sprintf("loop %d assert %d: %v", ls.ord, i+1, err))
+			continue
+		}
+		e.oblige(fmt.Sprintf("loop-assert.L%d.%d", ls.ord, i+1), g, firstPos(h), as.Text)
+		e.assumeAt(g)
+	}
 	for i, inv := range ls.spec.Invariants {
 		env := e.loopEnv(fr, h, vals, e.mem)
 		g, err := e.specBool(env, inv.E)
@@ -672,6 +736,10 @@ func (e *enc) afterCall(fr *frame, c *ssa.Call) {
 		e.oblige(fmt.Sprintf("assert@%s.%d", key, i+1), g, c.Pos(), cl.Text)
 		e.assumeAt(g)
 	}
+}
+
+func isPkgLevel(obj *types.Var) bool {
+	return obj.Pkg() != nil && obj.Parent() == obj.Pkg().Scope()
 }
 
 func calleeShort(c *ssa.Call) string {
@@ -916,6 +984,7 @@ func (e *enc) instr(b *ssa.BasicBlock, in ssa.Instruction) {
 		key := fmt.Sprintf("M:%s:%d:%s", clean(fr.fn.Name()), fr.depth, x.Name())
 		e.memSort[key] = ms
 		e.memTy[key] = x.Type()
+		e.zvalFacts(ms, mt)
 		empty := fmt.Sprintf("(mk_%s ((as const (Array %s Bool)) false) %s false)", ms, e.so.of(mt.Key()), e.uf("zval_"+clean(ms), nil, fmt.Sprintf("(Array %s %s)", e.so.of(mt.Key()), e.so.of(mt.Elem()))))
 		e.mem[key] = e.define("mkmap", ms, empty)
 		e.init[key] = e.mem[key]
@@ -1142,7 +1211,8 @@ func (e *enc) lookup(x *ssa.Lookup) {
 		}
 		ms := e.so.of(x.X.Type())
 		k := e.value(x.Index)
-		v := fmt.Sprintf("(ite (select (dom_%s %s) %s) (select (val_%s %s) %s) %s)", ms, m, k, ms, m, k, e.zero(mt.Elem()))
+		e.useMap(m, ms, mt)
+		v := fmt.Sprintf("(select (val_%s %s) %s)", ms, m, k)
 		if x.CommaOk {
 			fr.tuples[x] = []Term{e.define("lk_"+x.Name(), e.so.of(mt.Elem()), v), e.define("lkok_"+x.Name(), "Bool", fmt.Sprintf("(select (dom_%s %s) %s)", ms, m, k))}
 		} else {
